@@ -476,6 +476,8 @@ def check_bord(ctx, rng, pending):
         c = rng.random()
         k = rng.randint(0, 3)
         bs = rng.sample(range(N), k)
+        if bs and rng.random() < 0.12:
+            bs.insert(rng.randint(1, len(bs)), rng.choice(bs))     # one block listed twice in a single call
         if c < 0.3:
             ops.append(["addDetached", bs])
         elif c < 0.65:
@@ -490,10 +492,12 @@ def check_bord(ctx, rng, pending):
     rows = []
     for op in ops:
         try:
+            # the API takes any iterable: a list, or a one-shot generator
+            gen = rng.random() < 0.3
             if op[0] == "addDetached":
-                o.add_detached_blocks([blocks[i] for i in op[1]])
+                o.add_detached_blocks((blocks[i] for i in op[1]) if gen else [blocks[i] for i in op[1]])
             elif op[0] == "insertAfter":
-                o.insert_blocks_after(blocks[op[1]], [blocks[i] for i in op[2]])
+                o.insert_blocks_after(blocks[op[1]], (blocks[i] for i in op[2]) if gen else [blocks[i] for i in op[2]])
             else:
                 o.remove_block(blocks[op[1]])
             r = "ok"
@@ -506,11 +510,11 @@ def check_bord(ctx, rng, pending):
         # spec on plain lists
         members = [x for ch in chains for x in ch]
         if op[0] == "addDetached":
-            sr = "ValueError" if any(b in members for b in op[1]) else "ok"
+            sr = "ValueError" if any(b in members for b in op[1]) or len(set(op[1])) != len(op[1]) else "ok"
             if sr == "ok" and op[1]:
                 chains.append(list(op[1]))
         elif op[0] == "insertAfter":
-            if any(b in members for b in op[2]):
+            if any(b in members for b in op[2]) or len(set(op[2])) != len(op[2]):
                 sr = "ValueError"
             elif op[1] not in members:
                 sr = "KeyError"
